@@ -37,6 +37,135 @@ pub fn modelled() -> Vec<&'static str> {
 		.collect()
 }
 
+/// step-by-step refinement of a real indicator run against its reference model: values within their tracked bounds
+/// (`values`), signals in three-valued logic (`signals`); violations carry the property id `prop` (C05 / C06, or C07 for
+/// the long streams)
+pub fn refine(prop: &'static str, case: &MCase, stats: &mut Stats, values: bool, signals: bool) -> Vec<Violation> {
+	let mut vs = Vec::new();
+	let Some(cfg) = &case.cfg else { return vs };
+	let Some(f) = meng::factory(case) else { return vs };
+	for (k, v) in &case.feed_faults {
+		stats.fault_n(k, *v);
+	}
+	let name = case.sut.as_str();
+	let c0 = refm::tc_exact(&case.stream[0].candle_f64());
+	let Some(mut r) = refi::make_refind(name, cfg, &c0) else { return vs };
+	let a = match meng::run_a(&f, &case.stream) {
+		Ok(a) => a,
+		Err((step, msg)) => {
+			// a panic of an accepted instance belongs to C10 - except on the long streams of C07, where it is the way a
+			// counter that reaches its capacity shows in a build with overflow checks
+			// (the NaN assertions of SMM / Highest / Lowest behind a zero denominator are the C10 finding, whatever the length)
+			if prop == "C07" && step < case.stream.len() && !msg.contains("cannot operate with NAN") {
+				vs.push(Violation::new(prop, name, "panic_after_long_prefix", step, format!("next() panicked at tick {step}: {msg}")));
+			} else {
+				stats.probe("run_a_failed_skipped (belongs to C10)");
+			}
+			return vs;
+		}
+	};
+	stats.suts.insert(name.to_string());
+	stats.ticks += a.len() as u64;
+	let kinds = cfgmut::ma_kinds_in(cfg);
+	let regime = if case.feed_faults.is_empty() { "calm" } else { "faulty" };
+	stats.cover(format!("{name}|{}|{}|{regime}", kinds.first().cloned().unwrap_or_default(), meng::len_class(case.params.len())));
+		let mut sig_checked = 0u64;
+	let mut sig_exempt = 0u64;
+	// after a slot has been reported it is not checked any further (one report per slot and run)
+	let mut dead_v = [false; 4];
+	let mut dead_s = [false; 4];
+	let mut use_layout = false;
+	let layout = r.implemented_layout();
+	for (t, o) in a.iter().enumerate() {
+		let c = refm::tc_exact(&case.stream[t].candle_f64());
+		let (rv, rs) = r.next(&c);
+		stats.log(o.hash());
+		if o.tag != T_RESULT || o.w[0] as usize != rv.len() || o.w[1] as usize != rs.len() {
+			vs.push(Violation::new(prop, name, "shape", t, format!("result {o:?}; the reference has {} values and {} signals", rv.len(), rs.len())));
+			return vs;
+		}
+		if values {
+			for i in 0..rv.len() {
+				if dead_v[i.min(3)] {
+					continue;
+				}
+				let y = o.f(2 + i);
+				// documented slot i; after the layout deviation has been reported the implemented layout is followed
+				let want = if use_layout { rv[layout.as_ref().map_or(i, |l| l.0[i])] } else { rv[i] };
+				if want.und() {
+					stats.exempt += 1;
+					continue;
+				}
+				stats.checked += 1;
+				// quantities documented on a unit interval ([0,1] or [-1,1]): the rounding allowance has an absolute
+				// floor of a few ulp of 1 (e.g. 1 - N/(P+N) is as good an evaluation as P/(P+N))
+				let unit_floor = if unit_interval(name, i) { 16.0 * crate::tracked::U } else { 0.0 };
+				if !want.complies(y) && !((y - want.v).abs() <= want.e + unit_floor) {
+					if let (false, Some(l)) = (use_layout, layout.as_ref()) {
+						if (0..rv.len()).all(|j| rv[l.0[j]].und() || rv[l.0[j]].complies(o.f(2 + j))) {
+							use_layout = true;
+							vs.push(
+								Violation::new("C05", name, "documented_value_layout", t, format!("step {t}: the values are returned in the order {:?} of the documented slots (value {i} = {y:e}, documented slot {i} is {:e})", l.0, want.v))
+									.tag("regime", regime),
+							);
+							break;
+						}
+					}
+					vs.push(
+						Violation::new(prop, name, &format!("value_{i}"), t, format!("step {t}: value {i} = {y:e}, documented formula gives {:e} +- {:e} (candle {:?}, cfg {})", want.v, want.e, case.stream[t].candle_f64(), cfg.render()))
+							.tag("slot", i)
+							.tag("regime", regime),
+					);
+					dead_v[i.min(3)] = true;
+				}
+			}
+		} else {
+			let nv = o.w[0] as usize;
+			for (i, want) in rs.iter().enumerate() {
+				if dead_s[i.min(3)] {
+					continue;
+				}
+				let got = o.action(2 + nv + i);
+				match want {
+					Sig::Unknown => sig_exempt += 1,
+					Sig::A(w) => {
+						sig_checked += 1;
+						let flip = use_layout && layout.as_ref().map_or(false, |l| l.1[i] < 0);
+						let w = if flip { -*w } else { *w };
+						if w != got {
+							if let (false, Some(l)) = (use_layout, layout.as_ref()) {
+								if l.1[i] < 0 && -w == got {
+									use_layout = true;
+									vs.push(
+										Violation::new("C06", name, "documented_signal_sign", t, format!("step {t}: signal {i} = {got:?}, the documented rule gives {w:?}: the sign is inverted")).tag("regime", regime),
+									);
+									continue;
+								}
+							}
+							vs.push(
+								Violation::new(prop, name, &format!("signal_{i}"), t, format!("step {t}: signal {i} = {got:?}, documented rule gives {w:?} (values {:?}, cfg {})", (0..nv).map(|j| o.f(2 + j)).collect::<Vec<_>>(), cfg.render()))
+									.tag("slot", i)
+									.tag("regime", regime),
+							);
+							dead_s[i.min(3)] = true;
+						}
+					}
+				}
+			}
+		}
+	}
+	if signals {
+		stats.checked += sig_checked;
+		stats.exempt += sig_exempt;
+		stats.probe_n(&format!("signals_checked:{name}"), sig_checked);
+		stats.probe_n(&format!("signals_exempt:{name}"), sig_exempt);
+		if case.feed_faults.is_empty() && sig_checked + sig_exempt > 0 && sig_exempt * 5 > sig_checked + sig_exempt {
+			stats.probe("warning:more_than_20%_of_signal_slots_exempt_in_a_fault_free_run");
+		}
+	}
+	vs
+}
+
 impl Check for IndCheck {
 	type Case = MCase;
 	fn id(&self) -> &'static str {
@@ -60,120 +189,7 @@ impl Check for IndCheck {
 		crate::sched::draw_case(&run, slot, k, tier, len, false).expect("case")
 	}
 	fn execute(&self, case: &MCase, stats: &mut Stats) -> Vec<Violation> {
-		let mut vs = Vec::new();
-		let Some(cfg) = &case.cfg else { return vs };
-		let Some(f) = meng::factory(case) else { return vs };
-		for (k, v) in &case.feed_faults {
-			stats.fault_n(k, *v);
-		}
-		let name = case.sut.as_str();
-		let c0 = refm::tc_exact(&case.stream[0].candle_f64());
-		let Some(mut r) = refi::make_refind(name, cfg, &c0) else { return vs };
-		let Ok(a) = meng::run_a(&f, &case.stream) else {
-			stats.probe("run_a_failed_skipped (belongs to C10)");
-			return vs;
-		};
-		stats.suts.insert(name.to_string());
-		stats.ticks += a.len() as u64;
-		let kinds = cfgmut::ma_kinds_in(cfg);
-		let regime = if case.feed_faults.is_empty() { "calm" } else { "faulty" };
-		stats.cover(format!("{name}|{}|{}|{regime}", kinds.first().cloned().unwrap_or_default(), meng::len_class(case.params.len())));
-		let values = self.id == "C05";
-		let mut sig_checked = 0u64;
-		let mut sig_exempt = 0u64;
-		// after a slot has been reported it is not checked any further (one report per slot and run)
-		let mut dead_v = [false; 4];
-		let mut dead_s = [false; 4];
-		let mut use_layout = false;
-		let layout = r.implemented_layout();
-		for (t, o) in a.iter().enumerate() {
-			let c = refm::tc_exact(&case.stream[t].candle_f64());
-			let (rv, rs) = r.next(&c);
-			stats.log(o.hash());
-			if o.tag != T_RESULT || o.w[0] as usize != rv.len() || o.w[1] as usize != rs.len() {
-				vs.push(Violation::new(self.id, name, "shape", t, format!("result {o:?}; the reference has {} values and {} signals", rv.len(), rs.len())));
-				return vs;
-			}
-			if values {
-				for i in 0..rv.len() {
-					if dead_v[i.min(3)] {
-						continue;
-					}
-					let y = o.f(2 + i);
-					// documented slot i; after the layout deviation has been reported the implemented layout is followed
-					let want = if use_layout { rv[layout.as_ref().map_or(i, |l| l.0[i])] } else { rv[i] };
-					if want.und() {
-						stats.exempt += 1;
-						continue;
-					}
-					stats.checked += 1;
-					// quantities documented on a unit interval ([0,1] or [-1,1]): the rounding allowance has an absolute
-					// floor of a few ulp of 1 (e.g. 1 - N/(P+N) is as good an evaluation as P/(P+N))
-					let unit_floor = if unit_interval(name, i) { 16.0 * crate::tracked::U } else { 0.0 };
-					if !want.complies(y) && !((y - want.v).abs() <= want.e + unit_floor) {
-						if let (false, Some(l)) = (use_layout, layout.as_ref()) {
-							if (0..rv.len()).all(|j| rv[l.0[j]].und() || rv[l.0[j]].complies(o.f(2 + j))) {
-								use_layout = true;
-								vs.push(
-									Violation::new("C05", name, "documented_value_layout", t, format!("step {t}: the values are returned in the order {:?} of the documented slots (value {i} = {y:e}, documented slot {i} is {:e})", l.0, want.v))
-										.tag("regime", regime),
-								);
-								break;
-							}
-						}
-						vs.push(
-							Violation::new("C05", name, &format!("value_{i}"), t, format!("step {t}: value {i} = {y:e}, documented formula gives {:e} +- {:e} (candle {:?}, cfg {})", want.v, want.e, case.stream[t].candle_f64(), cfg.render()))
-								.tag("slot", i)
-								.tag("regime", regime),
-						);
-						dead_v[i.min(3)] = true;
-					}
-				}
-			} else {
-				let nv = o.w[0] as usize;
-				for (i, want) in rs.iter().enumerate() {
-					if dead_s[i.min(3)] {
-						continue;
-					}
-					let got = o.action(2 + nv + i);
-					match want {
-						Sig::Unknown => sig_exempt += 1,
-						Sig::A(w) => {
-							sig_checked += 1;
-							let flip = use_layout && layout.as_ref().map_or(false, |l| l.1[i] < 0);
-							let w = if flip { -*w } else { *w };
-							if w != got {
-								if let (false, Some(l)) = (use_layout, layout.as_ref()) {
-									if l.1[i] < 0 && -w == got {
-										use_layout = true;
-										vs.push(
-											Violation::new("C06", name, "documented_signal_sign", t, format!("step {t}: signal {i} = {got:?}, the documented rule gives {w:?}: the sign is inverted")).tag("regime", regime),
-										);
-										continue;
-									}
-								}
-								vs.push(
-									Violation::new("C06", name, &format!("signal_{i}"), t, format!("step {t}: signal {i} = {got:?}, documented rule gives {w:?} (values {:?}, cfg {})", (0..nv).map(|j| o.f(2 + j)).collect::<Vec<_>>(), cfg.render()))
-										.tag("slot", i)
-										.tag("regime", regime),
-								);
-								dead_s[i.min(3)] = true;
-							}
-						}
-					}
-				}
-			}
-		}
-		if !values {
-			stats.checked += sig_checked;
-			stats.exempt += sig_exempt;
-			stats.probe_n(&format!("signals_checked:{name}"), sig_checked);
-			stats.probe_n(&format!("signals_exempt:{name}"), sig_exempt);
-			if case.feed_faults.is_empty() && sig_checked + sig_exempt > 0 && sig_exempt * 5 > sig_checked + sig_exempt {
-				stats.probe("warning:more_than_20%_of_signal_slots_exempt_in_a_fault_free_run");
-			}
-		}
-		vs
+		refine(self.id, case, stats, self.id == "C05", self.id == "C06")
 	}
 	fn shrink(&self, case: &MCase) -> Vec<MCase> {
 		meng::shrink_mcase(case, 1)
